@@ -102,12 +102,18 @@ def record_pool(thorough):
                 ptrlike="none" if pref == 10 else "int", rdname=st)
     soa_ints = {"plain": (2024010101, 7200, 3600, 1209600, 60), "serial-c00c": (0xC00CC00C, 7200, 3600, 1209600, 60),
                 "minimum-c00c": (1, 7200, 3600, 1209600, 0xC00C), "all-ff": (0xFFFFFFFF,) * 5, "refresh-c000": (1, 0xC0000000, 3600, 1209600, 60)}
-    soa_styles = (("uncompressed", "uncompressed"), ("label+ptr", "label+ptr"), ("ptr", "label+ptr"), ("label+ptr", "uncompressed"), ("uncompressed", "ptr"))
+    soa_styles = (("uncompressed", "uncompressed"), ("label+ptr", "label+ptr"), ("ptr", "label+ptr"), ("label+ptr", "uncompressed"), ("uncompressed", "ptr"),
+                  ("ptr", "ptr"), ("ptr-prev", "ptr"), ("ptr", "ptr-prev"))  # the last three: two adjacent bare pointers
     for ik, ints in soa_ints.items():
         for s1, s2 in (soa_styles if ik in ("plain", "serial-c00c") else soa_styles[:2]):
             add(R.SOA, "SOA/%s/%s,%s" % (ik, s1, s2),
                 lambda c, at, i=ints, f1=name_in_rdata(s1, b"ns1"), f2=name_in_rdata(s2, b"hostmaster"): f1(c) + f2(c) + struct.pack("!IIIII", *i),
                 ptrlike="none" if ik == "plain" else "int", rdname="%s,%s" % (s1, s2))
+    # other types whose RDATA is two names back to back
+    for ty in (R.RP, R.MINFO):
+        for s1, s2 in (("uncompressed", "uncompressed"), ("ptr", "ptr"), ("label+ptr", "ptr"), ("ptr-prev", "ptr"), ("ptr", "label+ptr")):
+            add(ty, "%s/%s,%s" % (R.type_name(ty), s1, s2),
+                lambda c, at, f1=name_in_rdata(s1, b"admin"), f2=name_in_rdata(s2, b"info"): f1(c) + f2(c), rdname="%s,%s" % (s1, s2))
     for lab, pwp in (("plain", (1, 2, 443)), ("prio-c00c", (0xC00C, 0, 443)), ("weight-c000", (0, 0xC000, 0xFFFF)), ("port-c00c", (0, 0, 0xC00C))):
         for st in ("uncompressed", "ptr"):
             add(R.SRV, "SRV/%s/%s" % (lab, st), lambda c, at, v=pwp, f=name_in_rdata(st, b"sip"): struct.pack("!HHH", *v) + f(c),
@@ -137,7 +143,9 @@ def record_pool(thorough):
     return pool
 
 
-OWNERS = ("ptr", "label+ptr", "uncompressed")
+OWNERS = ("ptr", "label+ptr", "uncompressed")  # plus "ptr-prev" (owner = pointer to a name inside earlier RDATA, as in CNAME chains)
+PAD_STRINGS = 11  # a padding TXT record of 11 x 100 ASCII octets pushes everything after it beyond offset 1023 (10 bit offsets end there)
+PAD = Rec(R.TXT, "TXT/pad", lambda c, at: (b"\x64" + b"p" * 100) * PAD_STRINGS)
 
 
 def build_response(ident, flags, qkind, qtype, recs):
@@ -153,10 +161,12 @@ def build_response(ident, flags, qkind, qtype, recs):
             own = R.wire_name((), q_at)
         elif owner == "label+ptr":
             own = R.wire_name((b"www",), q_at)
+        elif owner == "ptr-prev":
+            own = R.wire_name((), ctx["prev_rdname"] if ctx["prev_rdname"] is not None else q_at)
         else:
             own = R.wire_name(qname)
         at, rd_at = w.record(sec, own, rec.rtype, rec.rclass, rec.ttl, lambda rd, r=rec: r.build(ctx, rd))
-        if rec.rdname != "none" and rec.rtype in (R.NS, R.CNAME, R.PTR, R.MX, R.SOA, R.SRV):
+        if rec.rdname != "none" and rec.rtype in (R.NS, R.CNAME, R.PTR, R.MX, R.SOA, R.SRV, R.RP, R.MINFO):
             # where the (first) name of this RDATA starts, for later 'ptr-prev' pointers
             ctx["prev_rdname"] = rd_at + {R.MX: 2, R.SRV: 6}.get(rec.rtype, 0)
     return w.done()
@@ -214,6 +224,18 @@ def enumerate_cases(thorough):
                         continue
                     yield {"tr": tr, "q": qkind, "qtype": 255, "qflags": 0x0100, "edns": "none", "rflags": 0x8180,
                            "recs": [[1, r1.label, "ptr"], [s2, r2.label, "ptr"]]}
+    # large responses: a padding record first, so that the names written after it sit beyond offset 1023, then a record
+    # with a name in its RDATA and a record that points back at that name (owner and/or RDATA name = pointer to it)
+    namers = [r for r in pool if r.rdname != "none" and r.ptrlike == "none" and r.rtype in (R.NS, R.CNAME, R.PTR, R.MX, R.SOA, R.SRV, R.RP, R.MINFO)]
+    for tr in (("udp", "tcp") if thorough else ("udp",)):
+        for qkind in (("idn", "plain") if thorough else ("idn",)):
+            for r1 in namers:
+                for r2 in pool:
+                    if r2.rtype == R.OPT:
+                        continue
+                    for owner in (("ptr-prev", "ptr") if "ptr-prev" in r2.rdname else ("ptr-prev",)):
+                        yield {"tr": tr, "q": qkind, "qtype": 255, "qflags": 0x0100, "edns": "none", "rflags": 0x8180, "pad": 1,
+                               "recs": [[1, r1.label, "ptr"], [1, r2.label, owner]]}
     if thorough:
         small = [r for r in pool if r.label in (
             "A/c00c", "CNAME/label+ptr", "NS/ptr-prev", "MX/a/label+ptr", "MX/c00c/ptr", "SOA/plain/label+ptr,label+ptr", "SOA/serial-c00c/ptr,label+ptr",
@@ -289,7 +311,7 @@ def compare(sent, delivered, t: Tally, case, direction, recfeats, verdicts=None)
 def run_case(case, t: Tally, verbose=False):
     pool = pool_by_label()
     tr, qkind = case["tr"], case["q"]
-    recs = [(sec, pool[label], owner) for sec, label, owner in case["recs"]]
+    recs = [(1, PAD, "ptr")] * case.get("pad", 0) + [(sec, pool[label], owner) for sec, label, owner in case["recs"]]
     ident = 0xC00C
     query = build_query(ident, qkind, case["qtype"], case["qflags"], case["edns"])
     resp = build_response(ident, case["rflags"], qkind, case["qtype"], recs)
@@ -341,6 +363,7 @@ def run(ctx):
     ctx.bounds = {
         "transports": ["udp", "tcp"], "question_names": {k: b".".join(v).decode() for k, v in QNAMES.items()},
         "record_variants": len(pool), "owner_styles": list(OWNERS), "rdata_name_styles": list(NAME_STYLES),
+        "large_responses": "1100-octet padding record + (record with RDATA name) x (every variant, owner = pointer to that name)",
         "records_per_response": "1 (all variants x owner styles x sections), 2 (all ordered pairs)" + (", 3 (20 variants cubed)" if thorough else ""),
         "queries": "4 names x 3 types x 7 flag words x 3 EDNS variants",
     }
